@@ -1,8 +1,7 @@
-(* C03 — concrete runs of the loop model: the witnesses of the three defects
-   the model found (F110 open; F111, F112 repaired: the runs of the code
-   BEFORE the repair are those of [c_legacy := true]) and the runs of the
-   repaired code on the same histories.  Every answer of an honest peer is
-   built with the ground-truth functions of LoopSpec (tcps, tmsg). *)
+(* C03 — a concrete run of the loop model: the witness of the defect the
+   model found in the unchanged code (F110, open) and the control run.
+   Every answer of a peer is built with the ground-truth functions of
+   LoopSpec (tcps, tmsg): both peers are honest. *)
 From stdpp Require Import gmap list.
 From Coq Require Import ZArith Lia.
 From Verif Require Import S1.Model C07.Spec C03.Model C03.Spec C03.Loop C03.LoopSpec.
@@ -13,12 +12,12 @@ Module W.
 Definition wH (fh prev : Z) : Z := (fh * 31 + prev * 7 + 11) mod 1000003 + 1.
 Definition wfh (x : Z) : Z := x + 500000.
 
-(* chain A: heights 0..2000 are the blocks 100..2100 *)
-Definition chainA : list Z := List.map Z.of_nat (seq 100 2001).
-(* a reorganisation that replaces blocks 1999 and 2000 and ends at the SAME height *)
-Definition chainB : list Z := take 1999 chainA ++ [900001; 900002].
+(* chain A: heights 0..1000 are the blocks 100..1100 *)
+Definition chainA : list Z := List.map Z.of_nat (seq 100 1001).
+(* a reorganisation that replaces blocks 999 and 1000 and ends at the SAME height *)
+Definition chainB : list Z := take 999 chainA ++ [900001; 900002].
 (* a reorganisation that replaces the tip block and is one block longer *)
-Definition chainC : list Z := take 2000 chainA ++ [900011; 900012].
+Definition chainC : list Z := take 1000 chainA ++ [900011; 900012].
 
 Definition thd0 : Z := thd wH wfh chainA 0.
 Definition a0 : alog2 := {| abl := chainA; afl := [thd0] |}.
@@ -31,8 +30,6 @@ Definition noenv : denv :=
 (* what an honest peer q says *)
 Definition hon_cpans (q : Z) (bl : list Z) : cpresp :=
   {| cr_peer := q; cr_reg := true; cr_stop := default 0 (last bl); cr_list := tcps wH wfh bl (zlen bl - 1) |}.
-Definition hon_raw (q : Z) (bl : list Z) (start e : Z) : rawresp :=
-  {| r_peer := q; r_reg := true; r_msg := tmsg wH wfh bl start e |}.
 Definition hon_arr (q : Z) (bl : list Z) (k ci e : Z) : arrival :=
   {| a_q := k; a_peer := q; a_reg := true; a_msg := tmsg wH wfh bl (ci * INTERVAL + 1) e |}.
 
@@ -46,76 +43,26 @@ Definition summary (s : lstate) : Z * list Z * Z * Z :=
    the same height; both peers are honest ---- *)
 Definition evs_f110 : list lev :=
   [ ERound (rd [hon_cpans 1 chainA; hon_cpans 2 chainA] [] []);          (* the fetch times out *)
-    EChain 1998 [900001; 900002] false;
-    ERound (rd [hon_cpans 1 chainB; hon_cpans 2 chainB] []
-               [hon_arr 1 chainB 0 0 2000; hon_arr 2 chainB 0 0 2000]) ].
+    EChain 998 [900001; 900002] false;
+    ERound (rd [] [] [hon_arr 1 chainB 0 0 1000; hon_arr 2 chainB 0 0 1000]) ].
 
 Lemma f110_run :
-  abl (chain_event a0 1998 [900001; 900002]) = chainB /\
-  summary (lrun wH (cfg false) (linit a0 [1; 2] false) evs_f110) = (21, [1; 2], 0, 2000) /\
+  abl (chain_event a0 998 [900001; 900002]) = chainB /\
+  summary (lrun wH (cfg false) (linit a0 [1; 2] false) evs_f110) = (21, [1; 2], 0, 1000) /\
   louts wH (cfg false) (linit a0 [1; 2] false) evs_f110 =
-    [(3, Some 2100, []); (3, None, [1; 2])].
+    [(3, Some 1100, []); (3, None, [1; 2])].
 Proof. vm_compute. done. Qed.
 
 (* the same history with a reorganisation that makes the chain longer: the
    lists are fetched again, nobody is banned, the interval is committed *)
 Definition evs_f110_longer : list lev :=
   [ ERound (rd [hon_cpans 1 chainA; hon_cpans 2 chainA] [] []);
-    EChain 1999 [900011; 900012] false;
-    ERound (rd [hon_cpans 1 chainC; hon_cpans 2 chainC] []
-               [hon_arr 1 chainC 0 0 2000; hon_arr 2 chainC 0 0 2000]) ].
+    EChain 999 [900011; 900012] false;
+    ERound (rd [hon_cpans 1 chainC; hon_cpans 2 chainC] [] [hon_arr 1 chainC 0 0 1000]) ].
 
 Lemma f110_longer_run :
-  abl (chain_event a0 1999 [900011; 900012]) = chainC /\
-  summary (lrun wH (cfg false) (linit a0 [1; 2] false) evs_f110_longer) = (0, [], 2000, 2001).
-Proof. vm_compute. done. Qed.
-
-(* ---- F112: two liars (2 lies in checkpoint 0, 3 only in checkpoint 1, both
-   serve the true cfheaders), 1 is honest; the tip is at a multiple of 1000 ---- *)
-Definition lie_cp (q : Z) (i : nat) (bl : list Z) : cpresp :=
-  {| cr_peer := q; cr_reg := true; cr_stop := default 0 (last bl);
-     cr_list := <[ i := 777000 + q ]> (tcps wH wfh bl (zlen bl - 1)) |}.
-Definition cps3 : list cpresp := [hon_cpans 1 chainA; lie_cp 2 0 chainA; lie_cp 3 1 chainA].
-Definition raws0 : list rawresp := [hon_raw 1 chainA 0 1999; hon_raw 2 chainA 0 1999; hon_raw 3 chainA 0 1999].
-Definition raws1 : list rawresp := [hon_raw 1 chainA 1000 2000; hon_raw 3 chainA 1000 2000].
-
-Definition evs_f112_legacy : list lev :=
-  [ ERound (rd cps3 raws0 []); ERound (rd cps3 raws0 []); ERound (rd cps3 raws0 []); ERound (rd cps3 raws0 []) ].
-
-Lemma f112_legacy_run :
-  louts wH (cfg true) (linit a0 [1; 2; 3] false) evs_f112_legacy =
-    [(2, Some 2100, [2]); (2, None, [2]); (2, None, [2]); (2, None, [2])] /\
-  summary (lrun wH (cfg true) (linit a0 [1; 2; 3] false) evs_f112_legacy) = (0, [2; 2; 2; 2], 0, 2000).
-Proof. vm_compute. done. Qed.
-
-Definition evs_f112_fixed : list lev :=
-  [ ERound (rd cps3 raws0 []);
-    ERound (rd cps3 raws1 [hon_arr 1 chainA 0 0 2000]) ].
-
-Lemma f112_fixed_run :
-  louts wH (cfg false) (linit a0 [1; 2; 3] false) evs_f112_fixed =
-    [(2, Some 2100, [2]); (3, Some 2100, [3])] /\
-  summary (lrun wH (cfg false) (linit a0 [1; 2; 3] false) evs_f112_fixed) = (0, [2; 3], 2000, 2000).
-Proof. vm_compute. done. Qed.
-
-(* ---- F111: nobody answers the first getcfcheckpt; the tip block is
-   replaced; honest peers only ---- *)
-Definition evs_f111 : list lev :=
-  [ ERound (rd [] [] []);
-    EChain 1999 [900011; 900012] false;
-    ERound (rd [hon_cpans 1 chainC; hon_cpans 2 chainC] [] [hon_arr 1 chainC 0 0 2000]);
-    ERound (rd [hon_cpans 1 chainC; hon_cpans 2 chainC] [] [hon_arr 1 chainC 0 0 2000]) ].
-
-Lemma f111_legacy_run :
-  louts wH (cfg true) (linit a0 [1; 2] false) evs_f111 =
-    [(1, Some 2100, []); (1, Some 2100, []); (1, Some 2100, [])] /\
-  summary (lrun wH (cfg true) (linit a0 [1; 2] false) evs_f111) = (0, [], 0, 2001).
-Proof. vm_compute. done. Qed.
-
-Lemma f111_fixed_run :
-  louts wH (cfg false) (linit a0 [1; 2] false) evs_f111 =
-    [(1, Some 2100, []); (3, Some 900012, []); (0, None, [])] /\
-  summary (lrun wH (cfg false) (linit a0 [1; 2] false) evs_f111) = (0, [], 2000, 2001).
+  abl (chain_event a0 999 [900011; 900012]) = chainC /\
+  summary (lrun wH (cfg false) (linit a0 [1; 2] false) evs_f110_longer) = (0, [], 1000, 1001).
 Proof. vm_compute. done. Qed.
 
 End W.
